@@ -148,6 +148,8 @@ def make_case(rng, n, shape, targets=None, step=None, allow_inputs=True):
 
 def add_precalc(rng, case, stats):
     """calculated values that exist before generate_actions; only kept when unrelated to the targets (D25)"""
+    if case.get("raises") is not None:
+        return          # evaluating the failing element beforehand would fail in the harness, not in the plan
     n = len(case["elems"])
     preds = {i: e["preds"] for i, e in enumerate(case["elems"])}
     inp = {e for e, _ in case["inputs"]}
